@@ -37,6 +37,15 @@ CHECKS = {
             "loops, chained lazy dot ranges, empty match at end for `matches`) are suppressed by predicate; fullword on "
             "variable-length expressions is checked with a sound sandwich.",
             "DESIGN.md section 2, C03"),
+    "C04": ("exploration",
+            "reference-model oracle over rule verdicts (runtime monitoring under ASan/UBSan/LSan)",
+            "Random well-typed conditions, printed with minimal parentheses, are evaluated by the real compiler+VM under "
+            "sanitizers on three buffers each and every rule verdict is compared with a Python evaluator of the "
+            "documented language (undefined propagation, 64-bit arithmetic, precedence table, of/for quantifiers) "
+            "working on brute-force match sets.",
+            "Trusted: vlib/m_cond.py. Points where the manual is silent (quantifier 0, empty iteration sets under "
+            "all/none, ordering of bytes >= 0x80, float equality within 1e-3) are not judged and counted.",
+            "DESIGN.md section 2, C04"),
 }
 
 NOT_YET = "check not built yet in this round (planned in DESIGN.md section 2); nothing is claimed for it"
